@@ -74,14 +74,23 @@ Theorem c04_assign :
 Proof. exact (conj assign_untyped (conj assign_untyped_float (conj assign_keeps assign_nil))). Qed.
 Print Assumptions c04_assign.
 
-(* conversions among the numeric types *)
+(* conversions among the numeric types:
+   1. integer -> integer: two's-complement wrap into the target type (every pair of int8, uint8, int32, uint32);
+   2. integer -> float64: the exact value (float_of_Z);
+   3.-5. float64 -> int32 / int8 / uint8 / uint32, for a float whose truncation toward zero z lies IN THE RANGE of
+      the target type: the result is z.  For a float outside the target's range (and for NaN / infinities,
+      where Ztrunc is None) Go leaves the result implementation-defined; the model follows the amd64 gc
+      compiler there (GoSpec/GoPrim.v cvt) and nothing is stated about it here -- it is compared with the
+      implementation by the correspondence only.
+   Not stated: conversions to and from string, and Value_convert on an untyped constant operand. *)
 Theorem c04_conv :
   (forall t t' a, typed t = true -> typed t' = true -> in_range t a = true ->
      Value_convert (V t a) (tag_of t') = Ok (V t' (wrap t' a))) /\
   (forall t a, typed t = true -> Value_convert (V t a) TypeFloat64 = Ok (F (float_of_Z a))) /\
   (forall f z, Ztrunc f = Some z -> in_range I32 z = true -> Value_convert (F f) TypeInt32 = Ok (V I32 z)) /\
-  (forall t f z, (t = I8 \/ t = U8) -> Ztrunc f = Some z -> in_range t z = true -> Value_convert (F f) (tag_of t) = Ok (V t z)).
-Proof. exact (conj convert_int (conj convert_int_float (conj convert_float_i32 convert_float_small))). Qed.
+  (forall t f z, (t = I8 \/ t = U8) -> Ztrunc f = Some z -> in_range t z = true -> Value_convert (F f) (tag_of t) = Ok (V t z)) /\
+  (forall f z, Ztrunc f = Some z -> in_range U32 z = true -> Value_convert (F f) TypeUint32 = Ok (V U32 z)).
+Proof. exact (conj convert_int (conj convert_int_float (conj convert_float_i32 (conj convert_float_small convert_float_u32)))). Qed.
 Print Assumptions c04_conv.
 
 (* float64: IEEE-754 binary64 operations (Coq's primitive floats), comparisons included *)
